@@ -70,8 +70,20 @@ def frame_bytes(fr):
     return e37.data_frame(SESSION, s, f, w, fr["sys"], _body(fr["k"], fr.get("n", 0), fr.get("fill", 0)))
 
 
+def _n_for_frame_len(kind, target):
+    """Payload size n such that the whole frame of `kind` is exactly `target` bytes long (None if impossible)."""
+    for n in range(max(0, target - 40), target):
+        if len(frame_bytes({"k": kind, "sys": 1, "n": n, "fill": 0})) == target:
+            return n
+    return None
+
+
+_EXACT = [n for n in (_n_for_frame_len("S7F3", t) for t in (1024, 2048, 3072, 1023, 1025)) if n is not None]
+
+
 def frames_strategy(max_frames=12, big=False):
-    sizes = st.one_of(st.sampled_from([0, 1, 2, 200, 255, 256, 1000, 1023, 1024, 1025]), st.integers(0, 3000))
+    # recv() reads 1024 bytes at a time: frames whose total length is exactly a multiple of that are a boundary class
+    sizes = st.one_of(st.sampled_from([0, 1, 2, 200, 255, 256, 1000, 1023, 1024, 1025] + _EXACT + _EXACT), st.integers(0, 3000))
     if big:
         sizes = st.one_of(sizes, st.sampled_from([65535, 65536, 70000]))
 
@@ -93,7 +105,7 @@ def case_strategy(draw, big=False):
     lens = [len(frame_bytes(f)) for f in frames]
     total = sum(lens)
     starts = [sum(lens[:i]) for i in range(len(lens))]
-    mode = draw(st.sampled_from(["random", "bytes", "lenfield", "header", "body", "aligned", "whole", "mixed"]))
+    mode = draw(st.sampled_from(["random", "bytes", "lenfield", "header", "body", "aligned", "whole", "mixed", "k1024"]))
     cuts = set()
     if mode in ("random", "mixed"):
         cuts |= set(draw(st.lists(st.integers(1, max(1, total - 1)), max_size=12)))
@@ -113,6 +125,12 @@ def case_strategy(draw, big=False):
         for s, l in zip(starts, lens):
             if l > 15 and draw(st.booleans()):
                 cuts.add(s + draw(st.integers(14, l - 1)))
+    if mode == "k1024":
+        # segments of exactly 1024*k bytes (what one or several full recv(1024) calls return)
+        pos = draw(st.integers(0, 1023))
+        while pos < total:
+            cuts.add(pos)
+            pos += 1024 * draw(st.integers(1, 3))
     if mode == "aligned":
         cuts |= {s for s in starts if s > 0 and draw(st.booleans())}
     cuts = sorted(c for c in cuts if 0 < c < total)
@@ -167,6 +185,10 @@ def classify(case):
         cls.append("random-schedule")
     if any(f.get("n", 0) > 1024 for f in frames):
         cls.append("body>1024")
+    if any(l % 1024 == 0 for l in lens):
+        cls.append("frame-length-multiple-of-1024")
+    if any((b - a) % 1024 == 0 for a, b in zip(bounds, bounds[1:])):
+        cls.append("segment-length-multiple-of-1024")
     nontrivial = bool(in_len or in_hdr or multi or singles >= 8)
     return nontrivial, cls
 
